@@ -23,8 +23,11 @@ RULE = (
     "value-carrying arguments (start_with, default_if_empty, contains, *_or_default defaults, seeds, zip_with_iterable values, publish_value / "
     "BehaviorSubject initial value) are mapped by sigma too and every hash-based user callback decides on the pair-collapsed form of its "
     "arguments, so both runs take identical decisions. Checks: `each_op` ENUMERATES every operator of the shared table (1-3 fixed argument "
-    "forms each, 167 forms over 127 operators) x each of the 8 falsy atoms x 7 input patterns (mixed, falsy element pending at completion, single, repeated "
-    "same-instant, error, empty, never-ending; cold and hot); `each_subject` enumerates Behavior/Replay(unbounded, size 1, window)/Async/plain "
+    "forms each, 169 forms over all 128 operators) x each of the 8 falsy atoms x 7 input patterns (mixed, falsy element pending at completion, single, repeated "
+    "same-instant, error, empty, never-ending; cold and hot) plus identity-key forms of group_by / group_by_until / to_dict for the hashable atoms "
+    "(the falsy element is itself the key); `impure_eq` enumerates default-== operators (distinct, distinct_until_changed, contains, "
+    "sequence_equal) behind 15 aggregate/buffer/timestamp producers merged with atoms of every sigma pair the producer's own outputs cannot "
+    "collide with (None next to count 0, '' next to False, () next to [], ...); `each_subject` enumerates Behavior/Replay(unbounded, size 1, window)/Async/plain "
     "subjects x 8 atoms x 4 scripts x 8 operator chains (none, delay, skip_last, pairwise, take_last, buffer_with_count, take_last_buffer, "
     "sample) with subscribers arriving before, during and after the script; `pipelines` draws random well-kinded pipelines (<=4 / <=6 "
     "operators, 1-3 sources); `per_op` draws one operator uniformly with random arguments on a 4-8 element falsy-rich input; `subjects` "
@@ -34,9 +37,11 @@ RULE = (
     "on_next. Distinct = distinct case JSON."
 )
 ASSUMPTIONS = [
-    "operators relying on default == (distinct, distinct_until_changed, contains, sequence_equal without key/comparer) are given a hash key/comparer "
-    "when an upstream operator can produce scalars or collections of its own (counts, booleans, None, empty buffers) that would be == to a falsy atom but not to its truthy partner",
-    "default numeric arithmetic on raw elements is excluded (sum/average/min/max use hash-based key mappers/comparers in the table)",
+    "operators relying on default == (distinct, distinct_until_changed, contains, sequence_equal without key/comparer) keep it unless an upstream operator can produce "
+    "values of its own that collide with a pair of the case's sigma (0/False/counts with the zero class, find's None with None, empty buffers with [], to_dict's {} with {}, "
+    "notifications with everything): there the falsy atom legitimately equals the operator-made value while its truthy partner does not, so the metamorphic relation does not "
+    "hold and a hash key/comparer is supplied (list semantics with such values is C05's closed-form business)",
+    "default numeric arithmetic on raw elements is excluded (sum/average/min/max use hash-based key mappers/comparers in the table); timestamp is included (both runs happen at the same virtual times)",
     "exception messages are not compared (only the exception type / tag)",
     "cases with >=90 actions at one virtual instant or exceeding the work budget in either run are discarded as inconclusive and counted",
 ]
@@ -78,6 +83,25 @@ class _Lab(Lab):
 
 
 class _Builder(Builder):
+    def build_op(self, name, args):
+        if not name.startswith("@"):
+            return super().build_op(name, args)
+        from reactivex import operators as ops
+
+        self.cur = name
+        ident = lambda x: x  # noqa: E731
+        if name == "@group_by_id":
+            o = ops.group_by(ident)
+        elif name == "@group_by_until_id":
+            dur = {"kind": "cold", "tl": [[2, "C", None]]}
+            o = ops.group_by_until(ident, None, lambda g: self.src(dur))
+        elif name == "@to_dict_id":
+            o = ops.to_dict(ident, self.mapper("element_mapper", "e"))
+        else:
+            raise HarnessError(name)
+        self.opi += 1
+        return o
+
     def h(self, *xs):
         from vlib.values import stable_hash
 
@@ -172,26 +196,52 @@ def _into_domain(case, rot, u):
     return _rename(case, m)
 
 
-# operators whose *own* outputs may be == to a falsy atom without being == to its truthy partner
-IMPURE = {
-    "count", "sum", "average", "find", "find_index", "all", "some", "contains", "is_empty", "sequence_equal", "to_list", "to_set",
-    "to_dict", "take_last_buffer", "buffer_with_count", "buffer_with_time", "buffer_with_time_or_count", "buffer", "buffer_when",
-    "buffer_toggle", "min_by", "max_by", "materialize", "dematerialize", "timestamp", "time_interval",
-} | {n for n, o in OPS.items() if o.out == "obs"}
+# operators whose *own* outputs may be == to a falsy atom (or to a truthy atom) without respecting sigma, by the sigma pair
+# they can collide with.  Booleans / counts / indices / sums collide with the zero class (0 == 0.0 == False), find's miss value
+# with None, empty (or [1]) lists with the list pair, to_dict's {} with the dict pair; sets, dataclasses (Timestamp,
+# TimeInterval: field-wise ==) and observables (identity ==) collide with nothing; notifications compare by str(): everything.
+_ALLP = frozenset(PAIRS)
+COLLIDES = {
+    "count": {"num"}, "sum": {"num"}, "average": {"num"}, "find_index": {"num"}, "all": {"num"}, "some": {"num"}, "contains": {"num"},
+    "is_empty": {"num"}, "sequence_equal": {"num"}, "find": {"none"}, "to_list": {"list"}, "take_last_buffer": {"list"},
+    "buffer_with_count": {"list"}, "buffer_with_time": {"list"}, "buffer_with_time_or_count": {"list"}, "buffer": {"list"},
+    "buffer_when": {"list"}, "buffer_toggle": {"list"}, "min_by": {"list"}, "max_by": {"list"}, "to_dict": {"dict"}, "to_set": set(),
+    "timestamp": set(), "time_interval": set(), "materialize": _ALLP, "dematerialize": _ALLP,
+}
+for _n, _o in OPS.items():
+    if _o.out == "obs":
+        COLLIDES.setdefault(_n, set())
+IMPURE = set(COLLIDES)
 DEFAULT_EQ = {"distinct": "k", "distinct_until_changed": "k", "contains": "c", "sequence_equal": "c"}
 
 
-def _guard_default_eq(ops_list, pure=True):
-    """Give default-== operators a hash key/comparer once the stream may carry operator-made scalars/collections."""
+def _sigma_pairs(u):
+    return set(u["pairs"]) | ({"num"} if u.get("num") else set())
+
+
+def _guard_default_eq(ops_list, u):
+    """Default-== operators keep their default comparison unless an upstream operator can produce values of its own that
+    collide with a pair of THIS case's sigma; only then they are given a hash key/comparer."""
     out = []
+    collide = set()
     for name, args in ops_list:
-        if name in DEFAULT_EQ and not pure and args.get("k") is None and args.get("c") is None:
+        if name in DEFAULT_EQ and args.get("k") is None and args.get("c") is None and (collide & _sigma_pairs(u)):
             args = dict(args)
             args[DEFAULT_EQ[name]] = 3
         out.append([name, args])
-        if name in IMPURE:
-            pure = False
+        collide |= COLLIDES.get(name, set())
     return out
+
+
+def _default_eq_classes(ops_list):
+    cls = set()
+    impure = False
+    for name, args in ops_list:
+        if name in DEFAULT_EQ and args.get("k") is None and args.get("c") is None:
+            cls.add("default-eq-on-impure-stream" if impure else "default-eq-on-pure-stream")
+        if name in IMPURE:
+            impure = True
+    return sorted(cls)
 
 
 def _norm_exc(c):
@@ -296,6 +346,11 @@ def _run_pipeline(case):
         cls.append("sigma-visible-in-output")
     if len(labT.probes) > 1:
         cls.append("inner-probes")
+    cls += _default_eq_classes(pt["ops"])
+    if "timestamp" in names:
+        cls.append("abstime-operator")
+    if any(n.startswith("@") for n in names):
+        cls.append("identity-key-form")
     for t, f in sig.items():
         cls.append("falsy:" + f)
     d = _first_diff(a, b)
@@ -318,11 +373,11 @@ def _pipe_cases(max_ops):
     def prep(t):
         pc, rot, u, inner = t
         pc = _into_domain(pc, rot, u)
-        pc["ops"] = _guard_default_eq(pc["ops"])
+        pc["ops"] = _guard_default_eq(pc["ops"], u)
         return {"pipe": pc, "u": u, "inner": inner}
 
     return st.tuples(
-        pipelines(max_ops=max_ops, exclude_tags=("abstime",), max_len=5), st.integers(0, 15), _u, st.sampled_from(["now", "now", "late", None])
+        pipelines(max_ops=max_ops, max_len=5), st.integers(0, 15), _u, st.sampled_from(["now", "now", "late", None])
     ).map(prep)
 
 
@@ -330,7 +385,7 @@ def _per_op_cases():
     """One operator form per case, fed directly with a falsy-rich input (every operator of the table is drawn uniformly)."""
     from vlib.lab import timelines
 
-    names = sorted(n for n, o in OPS.items() if "abstime" not in o.tags)
+    names = sorted(OPS)
     pre = {
         "any": st.just([]),
         "obs": st.sampled_from([[["window_with_count", {"n": 2, "s": None}]], [["map_to_obs", {"os": [{"kind": "cold", "tl": [[1, "N", "l1"], [2, "N", "x:nn"], [2, "C", None]]}]}]]]),
@@ -345,7 +400,7 @@ def _per_op_cases():
         pc = {"root": {"f": "single", "srcs": [src]}, "ops": draw(pre[o.inp]) + [[name, draw(o.args)]]}
         u = draw(_u_full)
         pc = _into_domain(pc, draw(st.integers(0, 15)), u)
-        pc["ops"] = _guard_default_eq(pc["ops"])
+        pc["ops"] = _guard_default_eq(pc["ops"], u)
         return {"pipe": pc, "u": u, "inner": "now"}
 
     return _c()
@@ -366,7 +421,7 @@ _W2 = [["window_with_count", {"n": 2, "s": None}]]
 
 EACH = {
     "pluck": [{}], "take": [{"n": 3}], "skip": [{"n": 1}], "take_last": [{"n": 2}, {"n": 5}], "skip_last": [{"n": 1}, {"n": 2}],
-    "take_last_buffer": [{"n": 2}], "pairwise": [{}], "start_with": [{"vs": [H, A, H]}], "default_if_empty": [{"v": H}],
+    "take_last_buffer": [{"n": 2}], "pairwise": [{}], "start_with": [{"vs": [H, A, H]}, {"vs": [H]}], "default_if_empty": [{"v": H}],
     "ignore_elements": [{}], "element_at": [{"n": 0}, {"n": 2}], "element_at_or_default": [{"n": 9, "v": H}, {"n": 0, "v": A}],
     "materialize": [{}], "dematerialize": [{}], "as_observable": [{}], "slice": [{"a": 1, "b": None, "c": None}, {"a": -2, "b": None, "c": None}, {"a": 0, "b": -1, "c": 2}],
     "to_list": [{}], "to_set": [{}], "is_empty": [{}], "merge": [{"os": [_AUX]}], "merge_max": [{"n": 1}, {"n": 2}], "concat": [{"os": [_AUX]}],
@@ -378,7 +433,7 @@ EACH = {
     "window_with_time": [{"t": 2, "s": None}], "buffer_with_time": [{"t": 2, "s": None}, {"t": 2, "s": 1}],
     "window_with_time_or_count": [{"t": 3, "n": 2}], "buffer_with_time_or_count": [{"t": 3, "n": 2}], "window": [{"o": _AUX}], "buffer": [{"o": _AUX}],
     "delay": [{"d": 2}, {"d": 0}], "delay_subscription": [{"d": 1}], "debounce": [{"d": 2}, {"d": 1}], "throttle_with_timeout": [{"d": 2}],
-    "throttle_first": [{"d": 2}], "sample": [{"d": 2}], "sample_obs": [{"o": _AUX}], "time_interval": [{}], "take_with_time": [{"d": 3}],
+    "throttle_first": [{"d": 2}], "sample": [{"d": 2}], "sample_obs": [{"o": _AUX}], "time_interval": [{}], "timestamp": [{}], "take_with_time": [{"d": 3}],
     "skip_with_time": [{"d": 2}], "take_last_with_time": [{"d": 3}], "skip_last_with_time": [{"d": 2}], "take_until_with_time": [{"d": 3}],
     "skip_until_with_time": [{"d": 2}], "timeout": [{"d": 5, "o": None}, {"d": 1, "o": _AUX}], "observe_on": [{}], "subscribe_on": [{}],
     "share": [{}], "publish_ref_count": [{}], "replay_ref_count": [{"n": 2, "w": None}, {"n": None, "w": 2}], "publish_value_ref_count": [{"v": H}],
@@ -402,7 +457,9 @@ EACH = {
     "do_action": [{"n": True, "e": True, "c": True}], "finally_action": [{}], "publish_mapper": [{"tag": "a"}], "replay_mapper": [{"n": 2}],
     "multicast_factory_mapper": [{"kind": "behavior"}, {"kind": "replay"}, {"kind": "subject"}], "while_do": [{"n": 2}], "do_while": [{"n": 1}],
 }
-_missing = sorted(n for n, o in OPS.items() if n not in EACH and "abstime" not in o.tags)
+# ---- 2. identity-key forms (keys ARE the elements: falsy keys are grouped / looked up / stored like any other key)
+ID_FORMS = {"@group_by_id": [{}], "@group_by_until_id": [{}], "@to_dict_id": [{}]}
+_missing = sorted(n for n, o in OPS.items() if n not in EACH)
 if _missing or any(n not in OPS for n in EACH):
     raise HarnessError(f"C08 each_op table out of date: missing {_missing}, unknown {[n for n in EACH if n not in OPS]}")
 EACH_PRE = {"dematerialize": [["materialize", {}]], "merge_all": _W2, "switch_latest": _W2, "exclusive": _W2, "merge_max": _W2}
@@ -429,9 +486,13 @@ def _subst(x, hero, main):
 
 
 def _each_cases(tier):
-    for name in sorted(EACH):
-        for fi, args in enumerate(EACH[name]):
+    table = dict(EACH)
+    table.update(ID_FORMS)
+    for name in sorted(table):
+        for fi, args in enumerate(table[name]):
             for atom, pair in ATOMS.items():
+                if name.startswith("@") and pair in ("list", "dict"):
+                    continue  # identity keys must be hashable
                 hero = PAIRS[pair]
                 for pat, tl in PATTERNS.items():
                     for kind in ("cold", "hot") if pat in ("mix", "tail") else ("cold",):
@@ -441,6 +502,35 @@ def _each_cases(tier):
                         ops_ = list(EACH_PRE.get(name, [])) + [[name, _subst(args, hero, other)]]
                         u = {"num": atom if pair == "num" else None, "pairs": [] if pair == "num" else [pair]}
                         yield {"pipe": {"root": {"f": "single", "srcs": [main]}, "ops": ops_}, "u": u, "inner": "now", "form": f"{name}#{fi}", "atom": atom, "pat": pat}
+
+
+# default == between falsy atoms and operator-made values of a DIFFERENT class (enumerated): the stream carries the output of an
+# aggregate / buffering operator (0, False, None, [], {}, set(), -1, dataclasses ...) merged with atoms of a sigma pair that
+# output cannot collide with; distinct / distinct_until_changed / contains / sequence_equal use their default comparison.
+_PRODUCERS = {
+    "count": {"p": None}, "sum": {}, "all": {"p": _PT}, "some": {"p": None}, "is_empty": {}, "find": {"p": _PF}, "find_index": {"p": _PF},
+    "to_list": {}, "take_last_buffer": {"n": 2}, "buffer_with_count": {"n": 2, "s": None}, "to_set": {}, "to_dict": {"k": 1000003},
+    "time_interval": {}, "timestamp": {}, "min_by": {"k": 2},
+}
+_AUXH = {"kind": "cold", "tl": [[2, "N", H], [7, "N", H], [8, "N", "x:zz"], [9, "N", H], [10, "C", None]]}
+_EQ_FORMS = [
+    ["distinct", {"k": None, "c": None}], ["distinct_until_changed", {"k": None, "c": None}], ["contains", {"v": H, "c": None}],
+    ["sequence_equal", {"o": {"kind": "cold", "tl": [[1, "N", H], [2, "N", H], [3, "C", None]]}, "c": None}],
+]
+
+
+def _impure_eq_cases(tier):
+    for prod, pargs in sorted(_PRODUCERS.items()):
+        for eq in _EQ_FORMS:
+            for atom, pair in ATOMS.items():
+                if pair in COLLIDES[prod]:
+                    continue  # this producer's outputs may legitimately equal that falsy atom but not its truthy partner
+                hero = PAIRS[pair]
+                u = {"num": atom if pair == "num" else None, "pairs": [] if pair == "num" else [pair]}
+                for pat in ("empty", "mix"):
+                    main = {"kind": "cold", "tl": _subst(PATTERNS[pat], hero, None)}
+                    ops_ = [[prod, pargs], ["merge", {"os": [_subst(_AUXH, hero, None)]}], _subst(eq, hero, None)]
+                    yield {"pipe": {"root": {"f": "single", "srcs": [main]}, "ops": ops_}, "u": u, "inner": None, "atom": atom, "pat": pat}
 
 
 # ---------------------------------------------------------------------------------------
@@ -464,8 +554,6 @@ for _n in FOCUS:
 def _chain(draw, max_ops):
     names = {"any": [], "obs": [], "notif": []}
     for n, o in OPS.items():
-        if "abstime" in o.tags:
-            continue
         names[o.inp].append(n)
     kind = "any"
     out = []
@@ -489,7 +577,7 @@ def _subject_cases(max_ops):
         c, rot, u, inner = t
         c = _into_domain(c, rot, u)
         for s in c["subs"]:
-            s["ops"] = _guard_default_eq(s["ops"])
+            s["ops"] = _guard_default_eq(s["ops"], u)
         return {"s": c, "u": u, "inner": inner}
 
     base = st.fixed_dictionaries(
@@ -622,6 +710,7 @@ def checks(tier):
     q = tier == "quick"
     return [
         Check("each_op", _run_pipeline, cases=_each_cases, shards={"quick": 8, "thorough": 16}, exhaustive=True),
+        Check("impure_eq", _run_pipeline, cases=_impure_eq_cases, shards={"quick": 8, "thorough": 16}, exhaustive=True),
         Check("pipelines", _run_pipeline, strategy=_pipe_cases(4 if q else 6), examples={"quick": 1600, "thorough": 16 * 12000}, shards={"quick": 8, "thorough": 16}),
         Check("per_op", _run_pipeline, strategy=_per_op_cases(), examples={"quick": 1200, "thorough": 16 * 8000}, shards={"quick": 8, "thorough": 16}),
         Check("each_subject", _run_subject, cases=_each_subject_cases, shards={"quick": 8, "thorough": 16}, exhaustive=True),
